@@ -274,6 +274,9 @@ def run(chk, replay=None):
                 else:
                     chk.violation(f"wild evaluates {text!r} to {ival}; GNU ld semantics give {spec_v}", {"cases": [rep], "impl_ast": sexp(iast), "impl_value": ival, "spec_value": spec_v})
         elif iast is not None and spec_v >= 0 and ival < 0:
+            if "C16-cmp-precedence" in known and has_cmp_below_bitwise(a) and iast != a:
+                chk.known_hit("C16-cmp-precedence", rep)        # parsed differently (the known precedence), and that parse divides by zero
+                continue
             chk.violation(f"wild fails to evaluate {text!r}; GNU ld semantics give {spec_v}", {"cases": [rep], "impl_ast": sexp(iast), "spec_value": spec_v})
 
     # ---- spec validation against real ld + end-to-end through the wild binary (ASSERT scripts)
